@@ -139,8 +139,8 @@ class DrapeModel(GridObject):
 
     @property
     def n_cells(self):
-        if self._layers is not None:
-            return self._layers.shape[0]
+        if self.layers is not None:
+            return self.layers.shape[0]
         return None
 
     @property
